@@ -131,7 +131,9 @@ void create_one() {
   case O_COND: add(t, p_cond_variable_new()); break;
   case O_RW: add(t, p_rwlock_new()); break;
   case O_SPIN: add(t, p_spinlock_new()); break;
-  case O_LOADER: add(t, p_library_loader_new(gen(4) == 0 ? "/nonexistent/libx.so" : "/lib/x86_64-linux-gnu/libm.so.6")); break;
+  case O_LOADER: { ensure_files(); uint32_t r = gen(4);
+                   std::string probe_mod = g_tmpdir.substr(0, g_tmpdir.rfind('/')) + "/libvpprobe.so";      // a module nothing else in the process has loaded
+                   add(t, p_library_loader_new(r == 0 ? "/nonexistent/libx.so" : r == 1 ? "/lib/x86_64-linux-gnu/libm.so.6" : probe_mod.c_str())); break; }
   case O_PROF: add(t, p_time_profiler_new()); break;
   default: break;
   }
